@@ -9,6 +9,7 @@ import time
 VERIF = os.path.dirname(os.path.dirname(os.path.abspath(__file__)))
 # VERIF_OUT redirects evidence and replays (used when a check is pointed at a scratch copy through VERIF_REPO, so that
 # trial runs on a deliberately broken tree never overwrite the evidence of the real one)
+REPO_PREFIX = os.environ.get("VERIF_REPO", "/repo").rstrip("/") + "/"
 EVID = os.path.join(os.environ.get("VERIF_OUT", VERIF), "evidence")
 REPLAYS = os.path.join(os.environ.get("VERIF_OUT", VERIF), "replays")
 KNOWN = os.path.join(VERIF, "known_findings.json")
@@ -44,6 +45,9 @@ class Check:
         self._seen_keys = {}
         self.max_reports = int(os.environ.get("VERIF_MAXREP", "25"))
         self.counters = {}
+        # replays belong to one run: a VIOLATION line always names a file written by the run that printed it
+        import shutil
+        shutil.rmtree(os.path.join(REPLAYS, self.pid), ignore_errors=True)
 
     # -- verdicts -----------------------------------------------------------
     def count(self, name, n=1):
@@ -153,7 +157,7 @@ def sanitizer_key(stderr):
     frames = []
     for m in re.finditer(r"#\d+ 0x[0-9a-f]+ in (\S+) (\S+)", stderr):
         fn, loc = m.group(1), m.group(2)
-        if "/repo/" in loc or "libyara" in loc:
+        if (REPO_PREFIX in loc) or "libyara" in loc:
             frames.append(fn)
         if len(frames) >= 3:
             break
@@ -171,7 +175,7 @@ def leak_keys(stderr):
         frames = []
         for m in re.finditer(r"#\d+ 0x[0-9a-f]+ in (\S+) (\S+)", block):
             fn, loc = m.group(1), m.group(2)
-            if ("/repo/" in loc or loc.startswith("libyara/")) and fn not in ("yr_malloc", "yr_calloc", "yr_realloc", "yr_strdup", "yr_strndup"):
+            if ((REPO_PREFIX in loc) or loc.startswith("libyara/")) and fn not in ("yr_malloc", "yr_calloc", "yr_realloc", "yr_strdup", "yr_strndup"):
                 frames.append(fn)
             if len(frames) >= 3:
                 break
